@@ -1021,6 +1021,11 @@ struct G
                     } else if (p.base == 'i' && !p.byref) {
                         a.tag = tag();
                         a.text = std::to_string(a.tag);
+                        // a quantifier inside the argument list: its binder scope must be gone when the instance is made
+                        if (rng.chance(0.12)) {
+                            static const char* q[] = {"(sum (zq : int[0,2]) zq * 0) + ", "(forall (zq : int[0,2]) zq >= 0) - 1 + ", "(exists (zq : int[0,2]) zq > 5) + "};
+                            a.text = q[rng.below(3)] + a.text;
+                        }
                     } else if (p.base == 'i') {
                         // plain ints only: a bounded or typedef'd int is not reference compatible
                         std::vector<std::string> plain;
@@ -1091,6 +1096,27 @@ struct G
             t.locs.push_back(l);
             m.templs.push_back(t);
             m.system.push_back(t.name);
+        }
+        // a variable declared in the system block whose type name means something else inside the last template: in the
+        // .xta rendering that type name is the very first token after the closing brace of that process
+        if (rng.chance(0.15) && !m.templs.empty() && !m.templs.back().dynamic) {
+            MDecl td;
+            td.kind = MDecl::TYPEDEF;
+            td.name = "zt_t";
+            td.text = "typedef int[0,7] zt_t;";
+            m.gdecls.push_back(td);
+            MDecl lv;
+            lv.kind = MDecl::VAR;
+            lv.name = "zt_t";
+            int t1 = tag();
+            lv.text = "int zt_t = " + std::to_string(t1) + ";";
+            lv.tags = {t1};
+            m.templs.back().decls.push_back(lv);
+            MDecl sv;
+            sv.kind = MDecl::VAR;
+            sv.name = "zsv";
+            sv.text = "zt_t zsv = " + std::to_string(rng.range(0, 7)) + ";";
+            m.sys_decls.push_back(sv);
         }
         for (size_t i = 1; i < m.system.size(); ++i)
             m.prio_lt.push_back(cfg.priorities && rng.chance(0.4));
@@ -1362,6 +1388,22 @@ Model gen_old_model(Rng& rng)
     for (size_t i = 1; i < m.system.size(); ++i)
         m.prio_lt.push_back(false);
     return m;
+}
+
+void localize_ids(Model& m, Rng& rng)
+{
+    for (auto& t : m.templs) {
+        std::vector<int> nums(t.locs.size() + t.bps.size());
+        for (size_t i = 0; i < nums.size(); ++i)
+            nums[i] = (int)i;
+        for (size_t i = nums.size(); i > 1; --i)
+            std::swap(nums[i - 1], nums[rng.below((uint32_t)i)]);
+        size_t k = 0;
+        for (auto& l : t.locs)
+            l.id = "id" + std::to_string(nums[k++]);
+        for (auto& b : t.bps)
+            b.id = "id" + std::to_string(nums[k++]);
+    }
 }
 
 }  // namespace sim
